@@ -149,6 +149,7 @@ func runC04(c *Ctx) {
 	c04GroupsDocumented(c)
 	// (3) exemptions
 	c04Exemptions(c, t)
+	c04ReservationGated(c, "RESERVATION-GATED", pkH)
 	c04AllNames(c)
 	// (4) previous-driven adapters
 	c.Rule("ADAPTERS-UNFILTERED", "no pair adapter filters the pairs it hands to its rules by a property of the elements", 6)
@@ -183,11 +184,15 @@ func runC04(c *Ctx) {
 	}
 	ruleEqualityHelper(c, "EQUALITY-HELPER", checkPkgs(p))
 	c03DefaultFromDefault(c, "DEFAULT-RESOLVED", pkH)
+	c03NoCountShortcut(c, l, "NO-COUNT-SHORTCUT")
 	c04Extra(c)
 	c04NormaliseTotal(c)
 	c04NilOutSameSide(c)
 	c03SubsetByPair(c, "SUBSET-BY-PAIR")
 	c03IndexAccumulates(c, "INDEX-ACCUMULATES")
+	if q := p.Pkg("private/bufpkg/bufprotosource"); q != nil {
+		c04InnerMapPerKey(c, "INNER-MAP-PER-KEY", q)
+	}
 	c04SiblingSkipGuards(c, "SIBLING-SKIP-GUARDS")
 	c.Rule("FILES-COMPLETE", "every input file (current and previous) is converted for the rule handlers whatever the parallelism", 1)
 	goAggRule(c, "FILES-COMPLETE", func(rel string) bool { return rel == "private/bufpkg/bufprotosource" })
@@ -225,7 +230,9 @@ func c04Exemptions(c *Ctx, t *checkTables) {
 	for _, kind := range []string{"Field", "EnumValue"} {
 		fr := p.Func(pkgCheckHandle, "isDeleted"+kind+"AllowedWithRules")
 		if fr == nil {
-			c.Fail(rule, "isDeleted"+kind+"AllowedWithRules", token.NoPos, "function not found")
+			// the helper may have been inlined into its caller: RESERVATION-GATED decides the same thing on SSA wherever
+			// the reservation questions are asked
+			c.Note("%s: isDeleted%sAllowedWithRules not found (inlined?); see RESERVATION-GATED", rule, kind)
 			continue
 		}
 		info := fr.Info()
